@@ -1,0 +1,6 @@
+//go:build !verif
+
+package xds
+
+// verifGate is a no-op in normal builds (see verifgate_on.go).
+func verifGate(string) {}
